@@ -3,6 +3,7 @@
 package c19
 
 import (
+	"errors"
 	"sync/atomic"
 	"fmt"
 	"math/rand/v2"
@@ -229,12 +230,28 @@ var idnPool = []struct{ unicode, ascii string }{
 
 var labelPool = []string{"router", "open", "wpad", "myco", "alice", "bob", "printer", "nas", "a.b", "x-y_z", "xn--bcher-kva", "www.alice", "0", "very-long-label-aaaaaaaaaaaaaaaaaaaaaaaaaaaaaaaaaaaaaaaaaaaaaaa"}
 
+// faultyConn is the resolver's socket with one injectable fault: the next SetWriteDeadline fails once.
+type faultyConn struct {
+	net.PacketConn
+	failNext atomic.Bool
+	failed   atomic.Int64
+}
+
+func (c *faultyConn) SetWriteDeadline(t time.Time) error {
+	if c.failNext.CompareAndSwap(true, false) {
+		c.failed.Add(1)
+		return errors.New("injected: set write deadline failed")
+	}
+	return c.PacketConn.SetWriteDeadline(t)
+}
+
 type world struct {
 	rc    *refCfg
 	cfg   *config.Config
 	store *storage.MemStorage
 	srv   *dns.Server
 	conn  net.PacketConn
+	fc    *faultyConn
 	am    *mgr.AlertMgr
 	names []string // internal names of interest
 	desc  string
@@ -311,7 +328,8 @@ func buildWorld(r *rand.Rand) (*world, error) {
 	if err != nil {
 		return nil, err
 	}
-	w.srv, err = dns.New(inst, w.conn, w.store)
+	w.fc = &faultyConn{PacketConn: w.conn}
+	w.srv, err = dns.New(inst, w.fc, w.store)
 	if err != nil {
 		return nil, err
 	}
@@ -589,9 +607,29 @@ func runWorld(res *core.Result, r *rand.Rand, wire bool, tier core.Tier) {
 			res.Inconcl("dns server start: %v", err)
 			return
 		}
-		defer func() { _ = w.srv.Stop() }()
+		defer func() {
+			stopped := make(chan struct{})
+			go func() { _ = w.srv.Stop(); close(stopped) }()
+			select {
+			case <-stopped:
+			case <-time.After(15 * time.Second):
+				w.violate(res, "resolver-does-not-stop", "the resolver did not stop within 15s (a worker is stuck)", nil)
+			}
+		}()
 		addr := w.conn.LocalAddr().String()
 		cl := &mdns.Client{Net: "udp", Timeout: 2 * time.Second}
+		probe := func(qname string) bool {
+			q := new(mdns.Msg)
+			q.Id = mdns.Id()
+			q.Question = []mdns.Question{{Name: qname, Qtype: mdns.TypeAAAA, Qclass: mdns.ClassINET}}
+			pc := &mdns.Client{Net: "udp", Timeout: 700 * time.Millisecond}
+			for try := 0; try < 3; try++ {
+				if _, _, err := pc.Exchange(q, addr); err == nil {
+					return true
+				}
+			}
+			return false
+		}
 		send := func(qname string, qt, qc uint16) bool {
 			q := new(mdns.Msg)
 			q.Id = mdns.Id()
@@ -661,6 +699,23 @@ func runWorld(res *core.Result, r *rand.Rand, wire bool, tier core.Tier) {
 			// A well-formed query afterwards must still be served.
 			if !send("router.myco.", mdns.TypeAAAA, mdns.ClassINET) {
 				return
+			}
+			// A one-off I/O fault while answering (the socket refuses one write deadline): that answer may be
+			// lost, later queries must be answered again (bounded progress: 1 of the next 4, 3 tries each).
+			w.fc.failNext.Store(true)
+			_ = probe("open.myco.")
+			if w.fc.failed.Load() > 0 {
+				answered := 0
+				for k := 0; k < 4; k++ {
+					if probe("router.myco.") {
+						answered++
+					}
+				}
+				if answered == 0 {
+					w.violate(res, "resolver-silent-after-reply-fault", "after one failed reply (the socket refused a write deadline once) the resolver answered none of the next 4 queries (3 tries of 0.7 s each)", nil)
+					return
+				}
+				res.Count("reply_faults_survived", 1)
 			}
 			if w.panicAlerts() != before {
 				w.violate(res, "serve-panic", "the DNS worker panicked on a raw packet from the wire", nil)
